@@ -942,6 +942,16 @@ pub fn gen_scen(rng: &mut Rng) -> ScenC {
                         section = 0; // full-record text into the question section (a second question)
                     }
                 }
+                if rng.chance(1, 14) {
+                    // several lines in one call: whatever the native text insertion makes of
+                    // them, the table entry has to do exactly the same
+                    let mut second = gen::gen_rr_text(rng);
+                    if rng.bool() {
+                        second = gen::damage_rr_text(rng, &second);
+                    }
+                    let sep = *rng.pick(&["\n", "\n", "\r\n", "\n\n"]);
+                    text = format!("{}{}{}", text, sep, second);
+                }
                 TopOp::Add {
                     section,
                     text: text.into_bytes(),
